@@ -91,6 +91,16 @@ func profileByName(name string) Profile {
 		p.Keys = []string{"bc", "c", "b", "a", "ab", "abc", "k"}
 		p.Txs = 16
 		p.Reopen = 20
+	case "framekv":
+		// key/value only, bucket names that are prefixes of each other and keys such that bucket+key concatenations
+		// coincide across buckets, several buckets per transaction, reopen often (C01, C08)
+		p.WKV = 1
+		p.Buckets = []string{"b", "b1", "bk", "bk1"}
+		p.Keys = []string{"1key", "key", "k1key", "1", "11", "k", "k1"}
+		p.Txs = 16
+		p.OpsMin, p.OpsMax = 2, 6
+		p.Reopen = 25
+		p.Oversize, p.DoneCalls = 0, 0
 	case "framedense":
 		// two buckets, two keys, two members: the same key names live in both buckets for every structure, so a call
 		// that looks at the wrong bucket finds something there (C04)
@@ -500,6 +510,14 @@ func suiteFault(seed uint64, n int, work string, prof string) {
 		r := root.Fork()
 		seg := []int{150, 200, 300}[r.Intn(3)]
 		open := optLine(r.Intn(2), r.Intn(2), r.Intn(2), r.Intn(2), seg)
+		// every third case is aimed: the transaction overwrites a live key and then fails exactly at the write of its LAST
+		// record (nothing of it reaches the file); afterwards other transactions fill further segments and Merge runs
+		aimed := i%3 == 2
+		hlive, hother := hx([]byte("zzlive")), hx([]byte("zzother"))
+		if aimed {
+			seg = 1000
+			open = optLine(r.Intn(2), r.Intn(2), r.Intn(2), 0, seg)
+		}
 		emit("#H %d %s", i, open)
 		a.comment = false
 		both("reset")
@@ -510,6 +528,12 @@ func suiteFault(seed uint64, n int, work string, prof string) {
 			}
 			both(c)
 		}
+		if aimed {
+			both("begin w ?")
+			both(fmt.Sprintf("put %s %s %s 0 1700000000", hx([]byte(p.Buckets[0])), hlive, hx([]byte("v0"))))
+			both("commit")
+			both("rollback")
+		}
 		o0 := obsOf(a)
 		// the transaction under test: 1-5 blind writes over all structures
 		g := &Gen{r: r, p: p, seg: seg, wrote: map[string]bool{}}
@@ -517,6 +541,10 @@ func suiteFault(seed uint64, n int, work string, prof string) {
 		nops := r.Range(1, 5)
 		for len(g.calls) < nops {
 			g.anyOp(true)
+		}
+		if aimed {
+			g.calls = []string{fmt.Sprintf("put %s %s %s 0 1700000000", hx([]byte(p.Buckets[0])), hlive, hx([]byte("BAD"))),
+				fmt.Sprintf("put %s %s %s 0 1700000000", hx([]byte(p.Buckets[0])), hother, hx([]byte("x")))}
 		}
 		for _, c := range g.calls {
 			if strings.HasPrefix(c, "spop") || strings.HasPrefix(c, "putnow") {
@@ -526,6 +554,9 @@ func suiteFault(seed uint64, n int, work string, prof string) {
 		}
 		j := r.Range(1, 12)
 		part := []int{-1, 0, 10, 42, 47, 100000}[r.Intn(6)] // 100000: the write completes, then the error is reported
+		if aimed {
+			j, part = 2, []int{-1, 0}[r.Intn(2)] // without SyncEnable and without a rotation the second mutation is the second record's write
+		}
 		cur = a
 		res := a.run(fmt.Sprintf("commitfault %d %d", j, part))
 		kind := a.faultOp
@@ -563,7 +594,10 @@ func suiteFault(seed uint64, n int, work string, prof string) {
 		cur = a
 		// every other time: a later transaction commits into the same segment before the reopen;
 		// it must survive, and the failed one must stay invisible
-		fk := r.Intn(3)
+		fk := []int{1, 1, 1, 2, 0}[r.Intn(5)] // mostly a small transaction that lands in the same segment
+		if aimed {
+			fk = 2
+		}
 		follow := fired && kind != "sync" && fk != 0
 		if follow {
 			a.run("begin w ?")
@@ -578,7 +612,36 @@ func suiteFault(seed uint64, n int, work string, prof string) {
 				emit("#SPEC a small transaction after a failed Commit (%s error, partial=%d) does not commit", kind, part)
 			}
 			a.run("rollback")
+			if aimed {
+				// one more segment
+				a.run("begin w ?")
+				a.run(fmt.Sprintf("put %s %s %s 0 1700000000", hx([]byte(p.Buckets[0])), hx([]byte("zzfollow2")), hx([]byte(strings.Repeat("\x02", seg-42-len(p.Buckets[0])-len("zzfollow2"))))))
+				a.run("commit")
+				a.run("rollback")
+			}
 			o0 = obsOf(a)
+		}
+		// every third time: Merge in the same process after the failed Commit.  Whatever the failed transaction left
+		// behind (records in the file, bookkeeping in memory) must not be turned into data by the rewrite.  Lists are
+		// left out of the comparison (known finding F14), vanished empty structures after the reopen are F30.
+		noLists := func(o []string) []string {
+			var r []string
+			for k, c := range obsCalls(p) {
+				if k < len(o) && !strings.HasPrefix(c, "lrange") && !strings.HasPrefix(c, "lsize") {
+					r = append(r, o[k])
+				}
+			}
+			return r
+		}
+		mergedHere := false
+		if fired && kind != "sync" && (aimed || r.Intn(3) == 0) {
+			a.comment = true // the model does not replay the failed transaction's leftovers through Merge
+			mergedHere = true // also when Merge stops with an error (e.g. at the torn record): the files it finished are rewritten
+			if a.run("merge") == "ok" {
+				if om := obsOf(a); !eq(noLists(om), noLists(o0)) {
+					emit("#SPEC Merge after a failed Commit (%s error, partial=%d) changed reads in the running process: %s", kind, part, firstDiff(noLists(om), noLists(o0), noLists(obsCalls(p))))
+				}
+			}
 		}
 		if a.run("close") != "ok" {
 			emit("#SPEC close failed after failed commit")
@@ -589,7 +652,11 @@ func suiteFault(seed uint64, n int, work string, prof string) {
 			continue
 		}
 		o2 := obsOf(a)
-		if fired && kind != "sync" && !eq(o2, o0) {
+		if mergedHere {
+			if _, real := diffClass(noLists(o2), noLists(o0), noLists(obsCalls(p))); real != "" {
+				emit("#SPEC Merge after a failed Commit (%s error, partial=%d) changed reads after reopen: %s", kind, part, real)
+			}
+		} else if fired && kind != "sync" && !eq(o2, o0) {
 			emit("#SPEC failed Commit (%s error, partial=%d, later commit=%v) changed reads after reopen: %s", kind, part, follow, firstDiff(o2, o0, obsCalls(p)))
 		}
 		if fired && kind == "sync" && !eq(o2, o0) && !eq(o2, ob) {
